@@ -376,10 +376,17 @@ class PrivateNameMangler(ast.NodeTransformer):
     """Apply the name mangling of class bodies (__x -> _Class__x)."""
 
     def __init__(self, clsname):
-        self.prefix = "_" + clsname.lstrip("_")
+        stripped = clsname.lstrip("_")
+        self.prefix = "_" + stripped if stripped else None
 
     def mangle(self, name):
-        if name.startswith("__") and not name.endswith("__") and "." not in name:
+        if (
+            self.prefix
+            and name
+            and name.startswith("__")
+            and not name.endswith("__")
+            and "." not in name
+        ):
             return self.prefix + name
         return name
 
@@ -393,6 +400,7 @@ class PrivateNameMangler(ast.NodeTransformer):
         return node
 
     def visit_arg(self, node):
+        self.generic_visit(node)
         node.arg = self.mangle(node.arg)
         return node
 
@@ -401,6 +409,71 @@ class PrivateNameMangler(ast.NodeTransformer):
         if node.arg is not None:
             node.arg = self.mangle(node.arg)
         return node
+
+    # Names bound by statements are stored as plain strings
+
+    def visit_FunctionDef(self, node):
+        self.generic_visit(node)
+        node.name = self.mangle(node.name)
+        return node
+
+    visit_AsyncFunctionDef = visit_FunctionDef
+
+    def visit_ClassDef(self, node):
+        # The body of a nested class is mangled with the name of that class
+        inner = PrivateNameMangler(node.name)
+        node.name = self.mangle(node.name)
+        for field in ("decorator_list", "bases", "keywords"):
+            setattr(node, field, [self.visit(x) for x in getattr(node, field)])
+        node.body = [inner.visit(stmt) for stmt in node.body]
+        return node
+
+    def visit_ExceptHandler(self, node):
+        self.generic_visit(node)
+        if node.name is not None:
+            node.name = self.mangle(node.name)
+        return node
+
+    def visit_alias(self, node):
+        # What is imported keeps its name, the variable it is stored in does not
+        if node.asname is not None:
+            node.asname = self.mangle(node.asname)
+        elif self.mangle(node.name) != node.name:
+            node.asname = self.mangle(node.name)
+        return node
+
+    def visit_Global(self, node):
+        node.names = [self.mangle(name) for name in node.names]
+        return node
+
+    visit_Nonlocal = visit_Global
+
+    def visit_MatchAs(self, node):
+        self.generic_visit(node)
+        if node.name is not None:
+            node.name = self.mangle(node.name)
+        return node
+
+    visit_MatchStar = visit_MatchAs
+
+    def visit_MatchMapping(self, node):
+        self.generic_visit(node)
+        if node.rest is not None:
+            node.rest = self.mangle(node.rest)
+        return node
+
+
+def _enclosing_class(qualname):
+    """Name of the innermost class a definition is lexically nested in."""
+    parts = qualname.split(".")[:-1]
+    i = len(parts) - 1
+    while i >= 0:
+        if parts[i] == "<locals>":
+            # Preceded by the name of a function
+            i -= 2
+        else:
+            return parts[i]
+    return None
 
 
 def _names(sym):
@@ -611,11 +684,12 @@ def recode(fn, ovld, recurse_sym, call_next_sym, newname):
         ast.increment_lineno(tree, -1)
     else:
         tree = ast.parse(src)
-    owner = getattr(fn, "__qualname__", "").split(".")[-2:-1]
-    if owner and owner[0] != "<locals>" and owner[0].strip("_"):
-        # Defined in a class body: private names are mangled there, and the
-        # source is compiled again outside of the class
-        tree = PrivateNameMangler(owner[0]).visit(tree)
+    owner = _enclosing_class(getattr(fn, "__qualname__", ""))
+    if owner:
+        # Defined in a class body (or in a function nested in one): private
+        # names are mangled there, and the source is compiled again outside
+        # of the class
+        tree = PrivateNameMangler(owner).visit(tree)
     new = NameConverter(
         anal=ovld.argument_analysis,
         recurse_sym=recurse_sym,
